@@ -178,76 +178,124 @@ class Desugar(ast.NodeTransformer):
                     return [asg] + [copy.deepcopy(b) for b in body]
                 return self.generic_visit(n)
         out = pre + [x for b in gbody for x in (lambda r: r if isinstance(r, list) else [r])(R().visit(copy.deepcopy(b)))]
+        out = self._propagate_constants(out, set(rename.values()) | {f"{p_}__g{k}" for p_ in params})
         for x in out:
             ast.copy_location(x, at) if not hasattr(x, "lineno") else None
             ast.fix_missing_locations(x)
         self.count["generator"] = self.count.get("generator", 0) + 1
         return out
 
+    CONTAINERS = {"list": ("list", "append"), "bytearray": ("bytearray", "append"), "set": ("set", "add")}
+
+    @staticmethod
+    def _fold_int(e: ast.expr) -> ast.expr:
+        """integer arithmetic on literals, bottom-up"""
+        class F(ast.NodeTransformer):
+            def visit_BinOp(self, n: ast.BinOp):
+                n = self.generic_visit(n)
+                l, r = n.left, n.right
+                if isinstance(l, ast.Constant) and isinstance(r, ast.Constant) and type(l.value) is int and type(r.value) is int:
+                    try:
+                        if isinstance(n.op, ast.Add):
+                            v = l.value + r.value
+                        elif isinstance(n.op, ast.Sub):
+                            v = l.value - r.value
+                        elif isinstance(n.op, ast.Mult):
+                            v = l.value * r.value
+                        elif isinstance(n.op, ast.LShift) and 0 <= r.value <= 64:
+                            v = l.value << r.value
+                        elif isinstance(n.op, ast.RShift) and 0 <= r.value <= 64:
+                            v = l.value >> r.value
+                        elif isinstance(n.op, ast.BitOr):
+                            v = l.value | r.value
+                        elif isinstance(n.op, ast.BitAnd):
+                            v = l.value & r.value
+                        else:
+                            return n
+                    except Exception:
+                        return n
+                    if abs(v) < 2 ** 70:
+                        return ast.copy_location(ast.Constant(value=v), n)
+                return n
+        return F().visit(e)
+
+    def _propagate_constants(self, stmts: List[ast.stmt], names) -> List[ast.stmt]:
+        """among the fresh locals of an expansion: one bound once, at the top level, to an integer literal expression is
+        replaced by the literal (so `mask = (1 << width) - 1` with width=7 reads as 127 where it is used)"""
+        mod = ast.Module(body=stmts, type_ignores=[])
+        changed = True
+        while changed:
+            changed = False
+            for i, s_ in enumerate(mod.body):
+                if isinstance(s_, ast.Assign) and len(s_.targets) == 1 and isinstance(s_.targets[0], ast.Name) and s_.targets[0].id in names:
+                    nm = s_.targets[0].id
+                    v = self._fold_int(copy.deepcopy(s_.value))
+                    stores = [x for x in ast.walk(mod) if isinstance(x, ast.Name) and x.id == nm and isinstance(x.ctx, (ast.Store, ast.Del))]
+                    if isinstance(v, ast.Constant) and type(v.value) is int and len(stores) == 1:
+                        class S(ast.NodeTransformer):
+                            def visit_Name(self, n: ast.Name):
+                                if n.id == nm and isinstance(n.ctx, ast.Load):
+                                    return ast.copy_location(ast.Constant(value=v.value), n)
+                                return n
+                        rest = [S().visit(x) for j, x in enumerate(mod.body) if j != i]
+                        mod.body = rest
+                        changed = True
+                        break
+        return mod.body
+
     def _comprehension_loop(self, value: ast.expr, at: ast.stmt):
-        """(list name init statement, for statement, name) for  [E for v in gen(...)] / list(gen(...)) ; None otherwise"""
-        elt = None
-        if isinstance(value, ast.ListComp) and len(value.generators) == 1 and not value.generators[0].is_async:
-            g = value.generators[0]
-            it, tgt, ifs, elt = g.iter, g.target, g.ifs, value.elt
-        elif isinstance(value, ast.Call) and isinstance(value.func, ast.Name) and value.func.id == "list" and len(value.args) == 1 and not value.keywords:
-            it, ifs = value.args[0], []
-            self.tmp += 1
-            tgt = ast.Name(id=f"__item{self.tmp}", ctx=ast.Store())
-            elt = ast.Name(id=tgt.id, ctx=ast.Load())
-        else:
+        """(container kind, iterable call, loop target, conditions, element, counter name or None) for
+             [E for v in gen(...)]   list(gen(...))   bytearray(gen(...))   bytearray(E for i, v in enumerate(gen(...)))  ...
+           where gen is an expandable module-level generator; None otherwise"""
+        kind = None
+        comp = None
+        if isinstance(value, ast.ListComp):
+            kind, comp = "list", value
+        elif isinstance(value, ast.Call) and isinstance(value.func, ast.Name) and value.func.id in self.CONTAINERS and len(value.args) == 1 and not value.keywords:
+            kind = value.func.id
+            a0 = value.args[0]
+            if isinstance(a0, (ast.GeneratorExp, ast.ListComp)):
+                comp = a0
+            else:
+                self.tmp += 1
+                tgt = ast.Name(id=f"__item{self.tmp}", ctx=ast.Store())
+                if self._generator_call(a0) is None:
+                    return None
+                return kind, a0, tgt, [], ast.Name(id=tgt.id, ctx=ast.Load()), None
+        if comp is None or len(comp.generators) != 1 or comp.generators[0].is_async:
             return None
+        g = comp.generators[0]
+        it, tgt, counter = g.iter, g.target, None
+        if isinstance(it, ast.Call) and isinstance(it.func, ast.Name) and it.func.id == "enumerate" and len(it.args) == 1 and not it.keywords and \
+                isinstance(tgt, ast.Tuple) and len(tgt.elts) == 2 and isinstance(tgt.elts[0], ast.Name):
+            counter, it, tgt = tgt.elts[0].id, it.args[0], tgt.elts[1]
         if self._generator_call(it) is None:
             return None
-        return it, tgt, ifs, elt
+        return kind, it, tgt, list(g.ifs), comp.elt, counter
 
     def _list_building(self, listname: str, parts, at: ast.stmt) -> List[ast.stmt]:
-        it, tgt, ifs, elt = parts
-        app: ast.stmt = ast.Expr(value=ast.Call(func=ast.Attribute(value=ast.Name(id=listname, ctx=ast.Load()), attr="append", ctx=ast.Load()), args=[elt], keywords=[]))
+        kind, it, tgt, ifs, elt, counter = parts
+        ctor, adder = self.CONTAINERS[kind]
+        app: ast.stmt = ast.Expr(value=ast.Call(func=ast.Attribute(value=ast.Name(id=listname, ctx=ast.Load()), attr=adder, ctx=ast.Load()), args=[elt], keywords=[]))
         for c in reversed(ifs):
             app = ast.If(test=c, body=[app], orelse=[])
-        init = ast.Assign(targets=[ast.Name(id=listname, ctx=ast.Store())], value=ast.List(elts=[], ctx=ast.Load()))
-        loop = ast.For(target=tgt, iter=it, body=[app], orelse=[])
+        body: List[ast.stmt] = [app]
+        pre: List[ast.stmt] = []
+        if counter is not None:
+            if ifs:
+                return [at]          # enumerate counts every item, a filtered append does not: left alone
+            pre.append(ast.Assign(targets=[ast.Name(id=counter, ctx=ast.Store())], value=ast.Constant(value=0)))
+            body.append(ast.AugAssign(target=ast.Name(id=counter, ctx=ast.Store()), op=ast.Add(), value=ast.Constant(value=1)))
+        init = ast.Assign(targets=[ast.Name(id=listname, ctx=ast.Store())],
+                          value=ast.List(elts=[], ctx=ast.Load()) if kind == "list" else ast.Call(func=ast.Name(id=ctor, ctx=ast.Load()), args=[], keywords=[]))
+        loop = ast.For(target=tgt, iter=it, body=body, orelse=[])
         out: List[ast.stmt] = []
-        for x in (init, loop):
+        for x in [init] + pre + [loop]:
             ast.copy_location(x, at)
             ast.fix_missing_locations(x)
             r = self.visit(x)
             out.extend(r if isinstance(r, list) else [r])
         return out
-
-    def _hoist_inner_walrus(self, node: ast.stmt, value: ast.expr):
-        """`x = (h := f()).attr`: the one walrus of the statement, evaluated unconditionally and before anything else that has
-        an effect, becomes its own assignment in front"""
-        ws = [x for x in ast.walk(value) if isinstance(x, ast.NamedExpr)]
-        if len(ws) != 1 or not isinstance(ws[0].target, ast.Name):
-            return None
-        w = ws[0]
-        inner = {id(x) for x in ast.walk(w)}
-        for x in ast.walk(value):
-            if id(x) in inner:
-                continue
-            if isinstance(x, (ast.BoolOp, ast.IfExp, ast.Lambda, ast.ListComp, ast.SetComp, ast.DictComp, ast.GeneratorExp)) and any(y is w for y in ast.walk(x)):
-                return None
-            if isinstance(x, (ast.Call, ast.Await, ast.Yield, ast.YieldFrom)) and not any(y is w for y in ast.walk(x)):
-                return None          # another effect in the statement: order could matter
-            if isinstance(x, ast.Call) and any(y is w for y in ast.walk(x)):
-                # the walrus is an argument / receiver of a call: everything evaluated before it must be effect free
-                for a in [x.func] + list(x.args):
-                    if any(y is w for y in ast.walk(a)):
-                        break
-                    if any(isinstance(y, ast.Call) for y in ast.walk(a)):
-                        return None
-        asg = ast.copy_location(ast.Assign(targets=[ast.Name(id=w.target.id, ctx=ast.Store())], value=w.value), node)
-        ast.fix_missing_locations(asg)
-
-        class Rep(ast.NodeTransformer):
-            def visit_NamedExpr(self, n):
-                if n is w:
-                    return ast.copy_location(ast.Name(id=w.target.id, ctx=ast.Load()), n)
-                return self.generic_visit(n)
-        self.count["walrus"] += 1
-        return asg, Rep().visit(value)
 
     def visit_Assign(self, node: ast.Assign):
         if self.func_stack and any(isinstance(x, ast.NamedExpr) for x in ast.walk(node.value)):
